@@ -792,8 +792,9 @@ class TiltInterface(Plane):
         .. code:: python
 
             wavefront = super().multiply(wavefront)
+            tilt = copy.copy(self)
             for field in wavefront.data:
-                field.tilt.append(self)
+                field.tilt.append(tilt)
             return wavefront
         
         Returns
@@ -802,8 +803,11 @@ class TiltInterface(Plane):
 
         """
         wavefront = super().multiply(wavefront)
+        # (a copy: the wavefront keeps the tilt this element has NOW, whatever
+        # its owner sets it to afterwards - e.g. one Tilt plane updated in a loop)
+        tilt = copy.copy(self)
         for field in wavefront.data:
-            field.tilt.append(self)
+            field.tilt.append(tilt)
         return wavefront
     
     def shift(self, wavelength, x0, y0, **kwargs):
